@@ -107,12 +107,16 @@ pub struct VariantDef {
     pub name: &'static str,
     pub discr: Option<u32>,
     pub fields: Vec<Ty>,
+    /// position of a `#[savefile_ignore]` field (not serialized, not part of the schema)
+    pub ignored: Option<usize>,
 }
 
 #[derive(Clone, Debug)]
 pub enum Def {
     /// align8: `#[repr(C, align(8))]`
     Struct { repr_c: bool, align8: bool, fields: Vec<Ty> },
+    /// tuple struct; field `ignored` carries `#[savefile_ignore]` (not serialized, not in the schema)
+    Tuple { repr_c: bool, fields: Vec<Ty>, ignored: usize },
     Enum { repr: Repr, variants: Vec<VariantDef> },
     /// a type that is not derived (primitive, array, tuple, collection)
     Alias(Ty),
@@ -132,7 +136,7 @@ fn en(name: &str, repr: Repr, variants: Vec<VariantDef>) -> TypeDef {
     TypeDef { name: name.to_string(), def: Def::Enum { repr, variants }, quick: true, plugin: false }
 }
 fn var(name: &'static str, discr: Option<u32>, fields: &[Ty]) -> VariantDef {
-    VariantDef { name, discr, fields: fields.to_vec() }
+    VariantDef { name, discr, fields: fields.to_vec(), ignored: None }
 }
 
 pub fn leaves() -> Vec<Ty> {
@@ -194,6 +198,47 @@ pub fn family() -> Vec<TypeDef> {
         let name = format!("Sa_{}", s.iter().map(|t| t.code()).collect::<Vec<_>>().join("_"));
         v.push(TypeDef { name, def: Def::Struct { repr_c: true, align8: true, fields: s }, quick: true, plugin: false });
     }
+    // tuple structs with ONE #[savefile_ignore] field at every position: the schema must record the
+    // offsets of the serialized fields, wherever the ignored one sits
+    {
+        let tri = [Ty::U8, Ty::U16, Ty::U32];
+        let mut tseqs: Vec<Vec<Ty>> = vec![];
+        for a in &tri {
+            for b in &tri {
+                tseqs.push(vec![a.clone(), b.clone()]);
+                for c in &tri {
+                    tseqs.push(vec![a.clone(), b.clone(), c.clone()]);
+                }
+            }
+        }
+        for sq in &tseqs {
+            for ignored in 0..sq.len() {
+                for repr_c in [false, true] {
+                    let name = format!("T{}_i{}_{}", if repr_c { "c" } else { "r" }, ignored, sq.iter().map(|t| t.code()).collect::<Vec<_>>().join("_"));
+                    let quick = sq.iter().all(|t| matches!(t, Ty::U8 | Ty::U16));
+                    v.push(TypeDef { name, def: Def::Tuple { repr_c, fields: sq.clone(), ignored }, quick, plugin: false });
+                }
+            }
+        }
+        // the same inside a tuple variant of an integer-repr enum
+        let duo = [Ty::U8, Ty::U16];
+        for a in &duo {
+            for b in &duo {
+                for c in &duo {
+                    let sq = vec![a.clone(), b.clone(), c.clone()];
+                    for ignored in 0..3 {
+                        for repr in [Repr::CU8, Repr::U8] {
+                            let name = format!("Ei_{}_i{}_{}", repr.code(), ignored, sq.iter().map(|t| t.code()).collect::<Vec<_>>().join("_"));
+                            let variants = vec![VariantDef { name: "X", discr: None, fields: sq.clone(), ignored: Some(ignored) }, var("Y", None, &[Ty::U8])];
+                            let mut t = en(&name, repr, variants);
+                            t.quick = repr == Repr::CU8;
+                            v.push(t);
+                        }
+                    }
+                }
+            }
+        }
+    }
     // enums with fields: shapes x reprs x discriminant assignments
     let shapes: Vec<(&str, Vec<(&'static str, Vec<Ty>)>)> = vec![
         ("a", vec![("X", vec![Ty::U8]), ("Y", vec![Ty::U8])]),
@@ -205,7 +250,7 @@ pub fn family() -> Vec<TypeDef> {
         for repr in [Repr::None, Repr::U8, Repr::CU8, Repr::U16, Repr::CU16] {
             let assigns: Vec<(&str, Vec<Option<u32>>)> = if repr == Repr::None { vec![("i", vec![None, None])] } else { vec![("i", vec![None, None]), ("e01", vec![Some(0), Some(1)]), ("e10", vec![Some(1), Some(0)])] };
             for (ac, asg) in assigns {
-                let variants = sh.iter().zip(asg.iter()).map(|((n, f), d)| VariantDef { name: n, discr: *d, fields: f.clone() }).collect();
+                let variants = sh.iter().zip(asg.iter()).map(|((n, f), d)| VariantDef { name: n, discr: *d, fields: f.clone(), ignored: None }).collect();
                 let mut t = en(&format!("E{}_{}_{}", sc, repr.code(), ac), repr, variants);
                 t.quick = matches!(repr, Repr::None | Repr::U8 | Repr::CU8) && *sc != "c";
                 v.push(t);
@@ -215,7 +260,7 @@ pub fn family() -> Vec<TypeDef> {
     // three variants, every permutation of 0..3 as explicit discriminants
     for repr in [Repr::U8, Repr::CU8] {
         let perms: [[u32; 3]; 6] = [[0, 1, 2], [0, 2, 1], [1, 0, 2], [1, 2, 0], [2, 0, 1], [2, 1, 0]];
-        let mk = |d: Option<[u32; 3]>| -> Vec<VariantDef> { ["X", "Y", "Z"].iter().enumerate().map(|(i, n)| VariantDef { name: n, discr: d.map(|d| d[i]), fields: vec![Ty::U8] }).collect() };
+        let mk = |d: Option<[u32; 3]>| -> Vec<VariantDef> { ["X", "Y", "Z"].iter().enumerate().map(|(i, n)| VariantDef { name: n, discr: d.map(|d| d[i]), fields: vec![Ty::U8], ignored: None }).collect() };
         v.push(en(&format!("Et_{}_i", repr.code()), repr, mk(None)));
         for p in perms {
             let mut t = en(&format!("Et_{}_e{}{}{}", repr.code(), p[0], p[1], p[2]), repr, mk(Some(p)));
@@ -251,10 +296,11 @@ pub fn def_sig(fam: &[TypeDef], d: &TypeDef) -> String {
     match &d.def {
         Def::Alias(t) => wire_sig(fam, t),
         Def::Struct { fields, .. } => format!("{{{}}}", fields.iter().map(|f| wire_sig(fam, f)).collect::<Vec<_>>().join(",")),
+        Def::Tuple { fields, ignored, .. } => format!("{{{}}}", fields.iter().enumerate().filter(|(i, _)| i != ignored).map(|(_, f)| wire_sig(fam, f)).collect::<Vec<_>>().join(",")),
         Def::Enum { repr, variants } => format!(
             "enum{}<{}>",
             repr.tag_width().unwrap_or(1),
-            variants.iter().map(|v| format!("{}({})", v.name, v.fields.iter().map(|f| wire_sig(fam, f)).collect::<Vec<_>>().join(","))).collect::<Vec<_>>().join("|")
+            variants.iter().map(|v| format!("{}({})", v.name, v.fields.iter().enumerate().filter(|(i, _)| Some(*i) != v.ignored).map(|(_, f)| wire_sig(fam, f)).collect::<Vec<_>>().join(","))).collect::<Vec<_>>().join("|")
         ),
     }
 }
@@ -267,7 +313,7 @@ pub fn is_pod(fam: &[TypeDef], d: &TypeDef) -> bool {
     };
     match &d.def {
         Def::Alias(t) => ty_pod(t),
-        Def::Struct { fields, .. } => fields.iter().all(ty_pod),
+        Def::Struct { fields, .. } | Def::Tuple { fields, .. } => fields.iter().all(ty_pod),
         Def::Enum { variants, .. } => variants.iter().all(|v| v.fields.iter().all(ty_pod)),
     }
 }
@@ -279,7 +325,7 @@ pub fn call_pairs(fam: &[TypeDef]) -> Vec<(usize, usize)> {
     let mut out = vec![];
     for a in 0..fam.len() {
         for b in 0..fam.len() {
-            if sigs[a] == sigs[b] && is_pod(fam, &fam[a]) && is_pod(fam, &fam[b]) && matches!(fam[a].def, Def::Struct { .. } | Def::Enum { .. }) && matches!(fam[b].def, Def::Struct { .. } | Def::Enum { .. }) {
+            if sigs[a] == sigs[b] && is_pod(fam, &fam[a]) && is_pod(fam, &fam[b]) && matches!(fam[a].def, Def::Struct { .. } | Def::Tuple { .. } | Def::Enum { .. }) && matches!(fam[b].def, Def::Struct { .. } | Def::Tuple { .. } | Def::Enum { .. }) {
                 out.push((a, b));
             }
         }
@@ -320,6 +366,38 @@ fn emit_def(d: &TypeDef, o: &mut String) {
             writeln!(o, "    fn values() -> Vec<LV> {{ product(vec![{}]).into_iter().map(LV::Rec).collect() }}", fields.iter().map(|f| format!("<{} as Pod>::values()", f.rust())).collect::<Vec<_>>().join(", ")).unwrap();
             writeln!(o, "}}").unwrap();
         }
+        Def::Tuple { repr_c, fields, ignored } => {
+            writeln!(o, "#[derive(Savefile)]").unwrap();
+            if *repr_c {
+                writeln!(o, "#[repr(C)]").unwrap();
+            }
+            writeln!(o, "pub struct {}({});", d.name, fields.iter().enumerate().map(|(i, f)| format!("{}pub {}", if i == *ignored { "#[savefile_ignore] " } else { "" }, f.rust())).collect::<Vec<_>>().join(", ")).unwrap();
+            let ser: Vec<(usize, &Ty)> = fields.iter().enumerate().filter(|(i, _)| i != ignored).collect();
+            writeln!(o, "impl Pod for {} {{", d.name).unwrap();
+            writeln!(
+                o,
+                "    fn facts() -> Facts {{ Facts::Struct {{ size: std::mem::size_of::<Self>(), align: std::mem::align_of::<Self>(), fields: vec![{}] }} }}",
+                ser.iter().map(|(i, f)| format!("(std::mem::offset_of!({}, {}), <{} as Pod>::facts())", d.name, i, f.rust())).collect::<Vec<_>>().join(", ")
+            )
+            .unwrap();
+            writeln!(o, "    fn to_lv(&self) -> LV {{ LV::Rec(vec![{}]) }}", ser.iter().map(|(i, _)| format!("self.{}.to_lv()", i)).collect::<Vec<_>>().join(", ")).unwrap();
+            let mut k = 0;
+            let parts: Vec<String> = fields
+                .iter()
+                .enumerate()
+                .map(|(i, f)| {
+                    if i == *ignored {
+                        "0xEE".to_string()
+                    } else {
+                        k += 1;
+                        format!("<{} as Pod>::from_lv(&r[{}])", f.rust(), k - 1)
+                    }
+                })
+                .collect();
+            writeln!(o, "    fn from_lv(v: &LV) -> Self {{ let r = v.rec(); {}({}) }}", d.name, parts.join(", ")).unwrap();
+            writeln!(o, "    fn values() -> Vec<LV> {{ product(vec![{}]).into_iter().map(LV::Rec).collect() }}", ser.iter().map(|(_, f)| format!("<{} as Pod>::values()", f.rust())).collect::<Vec<_>>().join(", ")).unwrap();
+            writeln!(o, "}}").unwrap();
+        }
         Def::Enum { repr, variants } => {
             writeln!(o, "#[derive(Savefile)]\n{}", repr.attr()).unwrap();
             writeln!(
@@ -329,7 +407,7 @@ fn emit_def(d: &TypeDef, o: &mut String) {
                 variants
                     .iter()
                     .map(|v| {
-                        let f = if v.fields.is_empty() { String::new() } else { format!("({})", v.fields.iter().map(|f| f.rust()).collect::<Vec<_>>().join(", ")) };
+                        let f = if v.fields.is_empty() { String::new() } else { format!("({})", v.fields.iter().enumerate().map(|(i, f)| format!("{}{}", if Some(i) == v.ignored { "#[savefile_ignore] " } else { "" }, f.rust())).collect::<Vec<_>>().join(", ")) };
                         let dsc = v.discr.map(|x| format!(" = {}", x)).unwrap_or_default();
                         format!("{}{}{}", v.name, f, dsc)
                     })
@@ -357,7 +435,7 @@ fn emit_def(d: &TypeDef, o: &mut String) {
                     o,
                     "          #[allow(unreachable_patterns)] let fields = match &val {{ {} => vec![{}], _ => unreachable!() }};",
                     pat(v),
-                    v.fields.iter().enumerate().map(|(i, f)| format!("(g{} as *const {} as usize - base, <{} as Pod>::facts())", i, f.rust(), f.rust())).collect::<Vec<_>>().join(", ")
+                    v.fields.iter().enumerate().filter(|(i, _)| Some(*i) != v.ignored).map(|(i, f)| format!("(g{} as *const {} as usize - base, <{} as Pod>::facts())", i, f.rust(), f.rust())).collect::<Vec<_>>().join(", ")
                 )
                 .unwrap();
                 writeln!(o, "          let _ = base; variants.push((tag, fields)); }}").unwrap();
@@ -365,7 +443,7 @@ fn emit_def(d: &TypeDef, o: &mut String) {
             writeln!(o, "        Facts::Enum {{ size: std::mem::size_of::<Self>(), align: std::mem::align_of::<Self>(), tag_width: {:?}, variants }}\n    }}", repr.tag_width()).unwrap();
             writeln!(o, "    fn to_lv(&self) -> LV {{ match self {{").unwrap();
             for (vi, v) in variants.iter().enumerate() {
-                writeln!(o, "        {} => LV::Var({}, vec![{}]),", pat(v), vi, (0..v.fields.len()).map(|i| format!("g{}.to_lv()", i)).collect::<Vec<_>>().join(", ")).unwrap();
+                writeln!(o, "        {} => LV::Var({}, vec![{}]),", pat(v), vi, (0..v.fields.len()).filter(|i| Some(*i) != v.ignored).map(|i| format!("g{}.to_lv()", i)).collect::<Vec<_>>().join(", ")).unwrap();
             }
             writeln!(o, "    }} }}").unwrap();
             writeln!(o, "    fn from_lv(v: &LV) -> Self {{ let (i, r) = v.var(); match i {{").unwrap();
@@ -373,14 +451,30 @@ fn emit_def(d: &TypeDef, o: &mut String) {
                 let build = if v.fields.is_empty() {
                     format!("{}::{}", d.name, v.name)
                 } else {
-                    format!("{}::{}({})", d.name, v.name, v.fields.iter().enumerate().map(|(i, f)| format!("<{} as Pod>::from_lv(&r[{}])", f.rust(), i)).collect::<Vec<_>>().join(", "))
+                    {
+                        let mut k = 0;
+                        let parts: Vec<String> = v
+                            .fields
+                            .iter()
+                            .enumerate()
+                            .map(|(i, f)| {
+                                if Some(i) == v.ignored {
+                                    "0xEE".to_string()
+                                } else {
+                                    k += 1;
+                                    format!("<{} as Pod>::from_lv(&r[{}])", f.rust(), k - 1)
+                                }
+                            })
+                            .collect();
+                        format!("{}::{}({})", d.name, v.name, parts.join(", "))
+                    }
                 };
                 writeln!(o, "        {} => {},", vi, build).unwrap();
             }
             writeln!(o, "        _ => panic!(\"harness: no such variant\"), }} }}").unwrap();
             writeln!(o, "    fn values() -> Vec<LV> {{ let mut out = vec![];").unwrap();
             for (vi, v) in variants.iter().enumerate() {
-                writeln!(o, "        out.extend(product(vec![{}]).into_iter().map(|r| LV::Var({}, r)));", v.fields.iter().map(|f| format!("<{} as Pod>::values()", f.rust())).collect::<Vec<_>>().join(", "), vi).unwrap();
+                writeln!(o, "        out.extend(product(vec![{}]).into_iter().map(|r| LV::Var({}, r)));", v.fields.iter().enumerate().filter(|(i, _)| Some(*i) != v.ignored).map(|(_, f)| format!("<{} as Pod>::values()", f.rust())).collect::<Vec<_>>().join(", "), vi).unwrap();
             }
             writeln!(o, "        out }}\n}}").unwrap();
         }
